@@ -9,7 +9,9 @@ LEAN_MODULES = ["LhasaV.Props.C10"]
 VH_FEATURES = []
 THEOREMS = {"stripSlashes_no_lead": "full", "full_path_flat": "full", "full_path_relative": "full", "full_path_contained": "full: no .. component, relative (given C11's invariant; name != ..)", "dotdot_name_possible": "full: the side condition is necessary",
             "guard_resolves_below_cwd": "full: any file system state", "deferred_link_contained": "full: mutations of a deferred link creation stay under cwd", "deferred_link_refused": "full",
-            "(contained, whole run: every mutating operation of the main phase resolves under the root)": "correspondence (canary + complete tree = model)"}
+            "run_contained": "FULL STATEMENT (model of the repaired tool, no w=): ANY archive, ANY prompt answers: every mutation of the whole run is below the extraction directory",
+            "safe_links_resolve_inside": "full: safe links never lead out",
+            "(runs with w=DIR; the unlogged parent-directory time stamps)": "correspondence (canary + complete tree = model)"}
 TRUSTED = ["abstract file system LhasaV.Model.Fs (no hard links, single user, symlink resolution with a loop bound) and the extraction "
            "model LhasaV.Model.Extract; both tied to the real tool by comparing the complete resulting tree (types, modes, times, contents, "
            "link targets) after every generated run, as root and as an unprivileged user",
@@ -266,9 +268,12 @@ def signature(case, c_out, why):
     return re.sub(r"[^a-zA-Z]+", "-", why)[:40]
 
 
-LEVEL_TEXT = ("Lean theorems: the path the tool builds for an entry is lexically inside the extraction directory (uses C11), the dangerous-link "
-              "predicate is exactly 'absolute or has a .. component'; the abstract file-system model of the whole extraction is tied to the "
-              "real tool by complete-tree comparison, and containment is evaluated on the real tool against a canary area (root and non-root).")
-LEVEL_NOTE = ("Partial: the file system is a model; containment is proved for path construction and for the deferred-link phase (the phase "
-              "that was defective: chained symlinks, repaired by fix e479cab), and checked by correspondence for the main phase.")
-TECHNIQUE = "Lean 4 proof (lexical containment of constructed paths, dangerous-link predicate) + file-system-model correspondence + canary observation"
+LEVEL_TEXT = ("Kernel-checked whole-run containment over the file-system model: for ANY archive and prompt answers every mutation of `lha x` "
+              "(parents, files, directories, links, placeholders, metadata, deferred dangerous links) acts below the extraction directory, given "
+              "only that the directory starts without unsafe links; with the path-construction and link-guard lemmas. The abstract file-system "
+              "model is tied to the real tool by complete-tree comparison; containment is also observed on the real tool against a canary area "
+              "(root and non-root) and the dangerous-link predicate by a dense three-way tie.")
+LEVEL_NOTE = ("Partial only in that the file system is a model: whole-run containment (run_contained) is proved for every archive over the "
+              "Fs/Extract/Reader models of the repaired tool (the proof attempt on the pinned tree exposed two defects, fixes e479cab and 4393d80); "
+              "the models are tied to the real tool by complete-tree comparison and a canary area; w=DIR runs by correspondence.")
+TECHNIQUE = "Lean 4 proof (whole-run containment invariant over the Fs/Extract/Reader models; safe-link resolution; deferred-link guard) + file-system-model correspondence + canary observation"
